@@ -409,6 +409,9 @@ def run_stage(ctx, stage):
         ctx["other_property_failures"] = ctx.get("other_property_failures", 0) + len(other)
         log("  NOTE: %d runs failed predicates of OTHER properties (%s) - reported by their own checks, not here" %
             (len(other), ", ".join(kinds)))
+        if os.environ.get("VERIF_SHOW_OTHER"):
+            for b in other[:int(os.environ["VERIF_SHOW_OTHER"])]:
+                log("    other: %s case=%s" % (json.dumps(b), json.dumps(byid.get(r2c(b["run"]), {}))[:400]))
     ctx["traces"] += st.get("counter", {}).get(stage.get("eval_key", ""), st["runs"])
     ctx["crashes"] += len(crashes)
     # samples for the evidence file
